@@ -655,7 +655,7 @@ impl<'a> St<'a> {
             13..=15 => p2s(&self.dir.join(NON_ARCHIVES[(k / 20) as usize % NON_ARCHIVES.len()])),
             16 => p2s(&self.dir.join("does_not_exist.mpq")),
             17 => String::new(),
-            18 => p2s(&self.dir),
+            18 => p2s(&self.dir.join("missing_dir").join("x.mpq")),
             _ => {
                 let mut s = p2s(&self.dir.join("nope_"));
                 while s.len() < 300 {
@@ -1294,7 +1294,7 @@ impl<'a> St<'a> {
         if !got.is_subset(&want) {
             self.viol("agreement-enum", "SFileEnumFiles", label, "name-not-in-rust-list", format!("enumeration produced names the Rust list() does not contain: {:?}", got.difference(&want).take(3).collect::<Vec<_>>()));
         } else if mode == 1 {
-            if ctx.names.len() != want.len().min(1) {
+            if ctx.names.len() > 1 || (is_all(&mask) && ctx.names.len() != want.len().min(1)) {
                 self.viol("agreement-enum", "SFileEnumFiles", label, "callback-false-does-not-stop", format!("callback returned false after the first name but was called {} times", ctx.names.len()));
             }
         } else if is_all(&mask) && (got != want || ctx.names.len() != want.len()) {
@@ -1889,7 +1889,7 @@ fn run_history(c: &mut Case, idx: u64, plan: &[PlanOp], exact: bool, miri: bool,
 
 // ------------------------------------------------------------------ scripted probes ----
 
-const NPROBE: u64 = 12;
+const NPROBE: u64 = 13;
 
 fn probe_plan(k: u64) -> (&'static str, Vec<PlanOp>) {
     let z = [0u32; 4];
@@ -2011,6 +2011,27 @@ fn special_probe(c: &mut Case, k: u64, idx: u64, exact: bool, fixtures: &std::pa
                 }
             }
         }
+        3 => {
+            // a directory where an archive file name is expected (Archive::open scans for a header up to the
+            // "size" lseek reports for the directory, one failing read per 512 bytes)
+            let path = p2s(&dir);
+            let cp = cs(&path);
+            st.begin("SFileOpenArchive", "path");
+            let r = timed(if exact { 12 } else { 6 }, move || {
+                let mut hh: HANDLE = ptr::null_mut();
+                let ok = unsafe { SFileOpenArchive(cp.as_ptr(), 0, 0, &mut hh) };
+                (ok, hh as usize)
+            });
+            st.end("SFileOpenArchive", "path", format!("(<a directory>)->{r:?}"), matches!(r, Some((true, _))));
+            match r {
+                None => {
+                    st.poisoned = true;
+                    st.viol("no-deadlock", "SFileOpenArchive", "path-is-a-directory", "call-did-not-return", "SFileOpenArchive on a directory path did not return within the budget (header scan loops over the size lseek reports for the directory)".into());
+                }
+                Some((true, _)) => st.viol("agreement-open", "SFileOpenArchive", "path-is-a-directory", "returned-success", "SFileOpenArchive opened a directory".into()),
+                Some((false, _)) => st.c.count("open_directory_refused", 1),
+            }
+        }
         _ => {
             // PKWare-compressed member added through the C API, archive re-opened, member opened
             std::fs::write(dir.join("compressible.dat"), vec![b'A'; 6000]).ok();
@@ -2098,11 +2119,17 @@ fn main() {
         if idx < NPROBE {
             let (name, plan) = probe_plan(idx);
             if plan.is_empty() {
-                let pname = ["verify-all-files-on-listed-archive", "fill-hash-table-through-adds", "", "", "pkware-member-added-reopened-opened"].get(idx as usize).copied().unwrap_or("");
+                let pname = match idx {
+                    0 => "verify-all-files-on-listed-archive",
+                    1 => "fill-hash-table-through-adds",
+                    4 => "pkware-member-added-reopened-opened",
+                    12 => "open-archive-on-a-directory",
+                    _ => "",
+                };
                 if pname.is_empty() || miri {
                     continue;
                 }
-                let k = if idx == 4 { 2 } else { idx };
+                let k = match idx { 4 => 2, 12 => 3, k => k };
                 run.case(idx, &format!("probe|{pname}"), json!({"mode": "probe", "probe": pname}), |c| {
                     poisoned = special_probe(c, k, idx, exact, &fixtures, &scratch);
                 });
